@@ -78,8 +78,10 @@ let () =
     | _ -> failwith "setmaxret");
   register "setclock" (fun tk -> match tk with
     | [_; t] -> clock := zi t; clock_step := Z0; obs "setclock ok"
-    | [_; t; st] -> clock := zi t; clock_step := zi st; obs "setclock ok"
     | _ -> failwith "setclock");
+  register "wfetchtick" (fun tk -> match tk with
+    | _ :: name :: _ -> with_file "wfetchtick" name (fun _ -> obs "wfetchtick consistent")
+    | _ -> failwith "wfetchtick");
   register "wupd" (fun tk -> match tk with
     | [_; name; t; v] -> with_file "wupd" name (fun h ->
         let (h', o) = w_update flocq_fops !clock h (zi t) (z_of_hex v) in
